@@ -14,6 +14,9 @@ CHECKS = {
  "C03": dict(category="exploration", technique="Hypothesis-generated locations over random genomes of every nucleotide alphabet, judged by a character-by-character sequence model with a typed-in IUPAC complement table",
    text="Extraction, strand reversal and splitting at random cut points for locations of any block structure over genomes in all 5 nucleotide alphabets (IUPAC codes, gaps, lower case); chains of slice (explicit/open/negative bounds), index, reverse-complement and append on sequences with a recorded location, each result's location re-read against the root genome.",
    note="T and U are identified when comparing reverse complements (complement(A) is T). Zero-length pieces may be refused. Known finding F3 (stepped slices).", ref="DESIGN.md §5 C03"),
+ "C04": dict(category="exploration", technique="Hypothesis-generated coordinate hierarchies (depth 1..3) and chunk windows, judged by composing per-level position lists and by re-reading sequence from the root",
+   text="Each level is placed on its parent by a 1..3-block location on either strand with sequences extracted from the root; child locations are lifted to every ancestor by type and by sequence identity and compared base-by-base/in order with the composed maps, and their extracted sequence with the root model; chromosome locations are lifted onto chunks (seq_chunk_to_parent), back, and chunk-to-chunk; absent ancestors and misses must be refused/empty.",
+   note="Hierarchies built in the idiom of the library's own tests; non-overlapping placements; distinct ids per case.", ref="DESIGN.md §5 C04"),
  "C15": dict(category="exploration", technique="exhaustive enumeration of the finite domains against typed-in IUPAC tables and Biopython's NCBI codon tables",
    text="Every element of every finite domain (4096 IUPAC triplets x case, all alphabet letters, frames x shifts in [-30,30], all strand pairs/triples, all biotype names) is enumerated and compared with an independent reference; within those domains this is complete.",
    note="Trusts Biopython CodonTable ids 1/11 and Bio.Seq.complement; IUPAC tables typed into checks/c15.py.", ref="DESIGN.md §5 C15"),
